@@ -54,6 +54,9 @@ func genI64(rnd *rand.Rand) (int64, string) {
 	case 4:
 		return -1, "minus1"
 	case 5:
+		if rnd.Intn(3) == 0 {
+			return []int64{-128, -32768, -8388608, -2147483648, 127, 32767, 2147483647}[rnd.Intn(7)], "narrow-type-boundary"
+		}
 		return -int64(rnd.Int63n(1 << 40)), "negative"
 	case 6:
 		return rnd.Int63(), "random63"
